@@ -63,15 +63,15 @@ def execute(text: str, backend: str, events: List[Event], model_dir: str, schedu
 
 
 def compare_event(ref: dict, obs: dict, tree: Optional[str] = None) -> Optional[str]:
-    """ref: {'eager','lazy','agree'}; obs: parsed driver event.  Returns None if equivalent, else a description."""
-    cands = [ref["eager"]] if ref["agree"] else [ref["eager"], ref["lazy"]]
-    msgs = []
-    for r in cands:
-        m = _cmp_one(r, obs)
-        if m is None:
-            return None
-        msgs.append(m)
-    return msgs[0]
+    """ref: {'eager','lazy','need','agree'}; obs: parsed driver event.  None if equivalent, else a description.
+    When the evaluation orders disagree (they can only disagree on which faults are met) the job may fault
+    iff the most eager order faults, and may produce rows iff the laziest (call-by-need) order does."""
+    if ref["agree"]:
+        return _cmp_one(ref["eager"], obs)
+    job_faulted = obs["fault"] is not None or obs["status_failure"]
+    if job_faulted:
+        return _cmp_one(ref["eager"], obs)
+    return _cmp_one(ref["need"], obs)
 
 
 def _cmp_one(r: dict, obs: dict) -> Optional[str]:
